@@ -55,6 +55,8 @@ strengthened.update({
  "C12-H":"C12 cold-start step: the first lookups of a fresh process come from 12 goroutines started 0/20/150/400 us apart",
  "C05-G":"c05/c01 castling family: the other king next to the mover's castling path (g2 h2 / a2 b2 c2 and mirrored)",
  "C02-E":"c10reuse: A ; B with a token the driver refuses in the middle ; A+tail (judge and model apply the prefix rule of applyMoves)",
+ "C13-I":"c13: empty and blank lines among the no-op lines sent during a search",
+ "C17-H":"translator-side effect analysis (Gen/Effects.v, C17_eval_keeps_no_state): the cache is a write to package-level state on Eval's call graph",
  "C20-G":"new stream c20_huge (generated files of 9..40 MiB, a line starting on every 1 MiB boundary)",
 })
 
